@@ -20,6 +20,7 @@ import (
 // c12_storage.go (N4 storage ownership), c12_place.go (lists that are fields: places), c12_escape.go (lists that leave
 // through a pointer parameter, accessors), c12_identity.go (the sorted list is the stored list), c12_closure.go
 // (function literals in the key derivation), c12_effects*.go (N5: order-independent effects under the map range),
+// c12_carried*.go (N6: no state carried between calls: package variables, sync.Pool),
 // c12_variants*.go (sensitivity and robustness suites).
 //
 // Anchors (exported API or interface methods only): osm.Updates.SortByIndex, osm.Updates.SortByTimestamp,
@@ -37,8 +38,9 @@ func init() {
 			"(N4) Every list grown by append under a map range owns its storage: whatever is stored into it other than by l = append(l, ...) is nil, a fresh allocation, a re-slice of the list itself, or a three-index slice; a two-index slice of a shared block is reported, because its capacity reaches into the storage of the lists carved after it and append then overwrites them in map-iteration order (the bounds of a three-index slice are not checked). " +
 			"A list may be a local or a field reached from one (a.updates, through pointers): a field path is a place of its own, translated through receivers and arguments, so the map range, the growth, the sort and the return may sit in different methods of a state struct; a list that leaves a function through a pointer parameter instead of a return moves the obligation to the callers. The sort must be a sort of the list that is stored: sorting a copy of the slice header (range value, local) counts only if the element is not given another array between the copy and the sort, and a store after the sort must store the sorted list itself (re-slice, or append onto fresh storage). " +
 			"(N5) Identical annotated elements: every write performed under a range over a map into state that outlives one iteration (variables declared outside the loop; in the functions reached from the body and in every annotate-tree implementation of the interface methods it calls, e.g. Parent.SetChild, whatever is written through receivers, pointer/slice/map parameters that are not objects created afresh under the loop, and package variables) commutes with the other iterations and is idempotent: a store into a slot keyed by data of the current call, a delete of such a key, a lazy initialisation under `p == nil` with a call-independent value, a constant store into a place nothing accumulates into, a counter nothing under the loop reads, an append N1 follows to a sort. A reset or replacement of a place other iterations insert into, a first-wins or last-wins store of call data, a delete of a foreign key, a counter that is read, are reported; other writes are undecided. All-or-none failure: no guard of a return under the loop reads state the iterations write (reported as undecided: a monotone condition would be harmless). " +
+			"(N6) A function of its input, not of earlier calls: whatever the annotate tree takes from state that outlives a call is emptied before use. A value drawn from a sync.Pool is either emptied by the first statement that touches it after Get (delete-all loop, clear, x = x[:0] or an empty view y := x[:0], Reset of a bytes.Buffer/strings.Builder, *p = T{}), or the pool's New returns only fresh values and every Put is directly preceded by emptying the value in the function or deferred closure that calls Put; a plain `defer pool.Put(x)` does not qualify, and the report names the returns (inside the loop that consumes x) on which x goes back half consumed. A package-level variable that is written anywhere in the repository is reset before every other use in each function that uses it, and no slice of it is re-extended beyond the length the call gave it. Today nothing is carried (one trivial obligation per package); never-written variables and the lock types of package sync are not data. " +
 			"(N3) Every return of Compute that returns lists returns them after a complete sort into the index order (in Compute, or in the function whose result it returns). " +
-			"NOT decided: byte identity of whole results, determinism of user datasources, collisions of two iterations on the same slot with different values, order effects through Parent.SetChild (each location is written once per child id), NaN in float fields (no comparator reads one), stores into outer slices that are not appends, one update variable appended twice in one statement, a map range written inside a function literal (reported as undecided; the key derivation does follow literals: callbacks handed to iteration helpers and local closures), lists kept as a field of the ELEMENTS of a slice (results[p].list).",
+			"NOT decided: byte identity of whole results, state kept in fields of objects the caller hands in (user datasources) or created per call, determinism of user datasources, collisions of two iterations on the same slot with different values, order effects through Parent.SetChild (each location is written once per child id), NaN in float fields (no comparator reads one), stores into outer slices that are not appends, one update variable appended twice in one statement, a map range written inside a function literal (reported as undecided; the key derivation does follow literals: callbacks handed to iteration helpers and local closures), lists kept as a field of the ELEMENTS of a slice (results[p].list).",
 		Assumptions: []string{"go/types, go/cfg (x/tools v0.29.0)", "sort.Sort is not stable, hence ties must be impossible on the emitted key", "time.Time: Before/After/Equal/Compare/Sub compare instants, == and != compare the representation", "the histories handed to Compute hold each child version once"},
 		LevelText:   "Structural necessary conditions for determinism and for the (index, time, version) order: map-iteration results are sorted before they escape, and the sort comparator is, by exhaustive evaluation over the relations between the compared fields, the required total order on the key the computation emits. Decided for every map range in annotate/… and for the comparator actually passed to the sort.",
 		LevelNote:   "Trusts the type checker, go/cfg dominance, and the documented behaviour of package sort and of time.Time comparisons. Does not decide byte-identity of results.",
@@ -56,9 +58,11 @@ func init() {
 			// N5 floor: one write in Compute (the append) and at least one per Parent implementation (ways, relations); the number
 			// of field stores inside SetChild is not counted (a struct assignment would merge them).
 			{ID: "N5", Floor: 3, Doc: "order-independence of effects: every write made under a map range (in the loop body, in the functions it reaches, in every annotate-tree implementation of the interface methods it calls) into state that outlives the iteration is commutative and idempotent", Run: c12N5},
+			// N6 floor: one obligation per annotate-tree package (trivial today: nothing is carried between calls).
+			{ID: "N6", Floor: 3, Doc: "no state carried between calls: package-level variables that are written and values drawn from a sync.Pool are emptied before use (or provably empty when put back, on every exit)", Run: c12N6},
 		},
-		Mutants: append(append(append(append([]core.Mutant{}, c12Mutants...), c12Mutants5...), c12Mutants6...), c12Mutants7...),
-		Benign:  append(append(append(append([]core.Mutant{}, c12Benign...), c12Benign5...), c12Benign6...), c12Benign7...),
+		Mutants: append(append(append(append(append([]core.Mutant{}, c12Mutants...), c12Mutants5...), c12Mutants6...), c12Mutants7...), c12Mutants8...),
+		Benign:  append(append(append(append(append([]core.Mutant{}, c12Benign...), c12Benign5...), c12Benign6...), c12Benign7...), c12Benign8...),
 	})
 }
 
